@@ -30,6 +30,7 @@ type CallGraph struct {
 	Ext        map[*ssa.Function][]*ExtCall
 	Unresolved map[ssa.CallInstruction]string // dynamic calls with an unknown (external) source of function values
 	P          *Prog
+	viaParam   bool // set by funcValues when the resolution went through a parameter of a module function
 	namedTypes []types.Type
 	edgeSeen   map[edgeKey]bool
 }
@@ -159,9 +160,17 @@ func buildCallGraph(P *Prog) *CallGraph {
 	for round := 0; round < 10; round++ {
 		changed := false
 		for _, d := range dyns {
+			cg.viaParam = false
 			fs, unknown := cg.funcValues(d.site.Common().Value, map[ssa.Value]bool{})
+			kind := "dynamic"
+			if cg.viaParam {
+				// the callee is whatever the callers of the enclosing higher-order function
+				// passed in: context-insensitive, so reachability ignores these edges and uses
+				// the per-call-site "hoarg" edges added below instead
+				kind = "param"
+			}
 			for _, f := range fs {
-				if cg.addEdge(d.site, d.caller, f, "dynamic") {
+				if cg.addEdge(d.site, d.caller, f, kind) {
 					changed = true
 				}
 			}
@@ -171,7 +180,26 @@ func buildCallGraph(P *Prog) *CallGraph {
 				delete(cg.Unresolved, d.site)
 			}
 		}
-		// closures passed as arguments of module-to-module calls flow through parameters (handled by funcValues)
+		// a function value passed to a module function that (transitively) calls its
+		// parameter is called on behalf of the passing call site
+		for _, fn := range P.Funcs {
+			for _, e := range append([]*Edge{}, cg.Out[fn]...) {
+				if e.Kind == "param" || e.Kind == "hoarg" || e.Kind == "extarg" {
+					continue
+				}
+				for _, a := range e.Site.Common().Args {
+					if _, isSig := a.Type().Underlying().(*types.Signature); !isSig {
+						continue
+					}
+					fs, _ := cg.funcValues(a, map[ssa.Value]bool{})
+					for _, f := range fs {
+						if cg.addEdge(e.Site, fn, f, "hoarg") {
+							changed = true
+						}
+					}
+				}
+			}
+		}
 		if !changed {
 			break
 		}
@@ -267,6 +295,7 @@ func (cg *CallGraph) funcValues(v ssa.Value, seen map[ssa.Value]bool) (fns []*ss
 	case *ssa.MakeInterface:
 		return cg.funcValues(v.X, seen)
 	case *ssa.Parameter:
+		cg.viaParam = true
 		fn := v.Parent()
 		idx := -1
 		for i, p := range fn.Params {
@@ -465,6 +494,16 @@ func fieldOfVal(f *ssa.Field) *types.Var {
 // Reachable returns the set of module functions reachable from the roots.
 // skip, when non-nil, prunes edges.
 func (cg *CallGraph) Reachable(roots []*ssa.Function, skip func(*Edge) bool) map[*ssa.Function]bool {
+	return cg.reach(roots, skip, false)
+}
+
+// ReachableAll also follows the context-insensitive "param" edges (used to decide whether
+// code may run on a goroutine spawned inside a higher-order helper).
+func (cg *CallGraph) ReachableAll(roots []*ssa.Function) map[*ssa.Function]bool {
+	return cg.reach(roots, nil, true)
+}
+
+func (cg *CallGraph) reach(roots []*ssa.Function, skip func(*Edge) bool, withParam bool) map[*ssa.Function]bool {
 	seen := map[*ssa.Function]bool{}
 	var work []*ssa.Function
 	for _, r := range roots {
@@ -477,6 +516,9 @@ func (cg *CallGraph) Reachable(roots []*ssa.Function, skip func(*Edge) bool) map
 		fn := work[len(work)-1]
 		work = work[:len(work)-1]
 		for _, e := range cg.Out[fn] {
+			if e.Kind == "param" && !withParam {
+				continue // replaced by the context-sensitive "hoarg" edges at the passing call site
+			}
 			if skip != nil && skip(e) {
 				continue
 			}
